@@ -994,15 +994,17 @@ func Set[T any](hasher fp.Hashable[T], v ...T) fp.Set[T] {
 }
 
 type setBuilder[V any] struct {
-	m *hamt[V, bool]
+	m      *hamt[V, bool]
+	shared bool // a Set built from m has been handed out: m must not be updated in place any more
 }
 
 func (r *setBuilder[V]) Add(v V) *setBuilder[V] {
-	r.m.set(v, true, true)
+	r.m = r.m.set(v, true, !r.shared)
 	return r
 }
 
 func (r *setBuilder[V]) Build() fp.Set[V] {
+	r.shared = true
 	return fp.MakeSet[V](func() fp.SetMinimal[V] {
 		return SetMinimal(r.m.hasher)
 	}, set[V]{r.m})
